@@ -131,8 +131,11 @@ type Config struct {
 	SlowDelay  time.Duration
 	DelayProb  float64 // probability that a call is delayed at all
 	Logger     *zap.Logger
-	// RPCTimeout: how long a caller waits for an answer (default 2 s; the real client waits
-	// 10 s with maintenance intervals about a thousand times longer than the simulator's)
+	// RPCTimeout: how long a caller waits for an answer (default 10 s, like the real client:
+	// long enough not to fire on a loaded machine or under the race detector, short enough to
+	// break the lock cycles that only this timer ever breaks). A timeout that fires is a lost
+	// response - fault territory (C07) - so checks of fault-free behaviour count a case in
+	// which Timeouts > 0 as inconclusive.
 	RPCTimeout time.Duration
 	KeepLog    bool
 	NewKV      func(id uint64) (chord.KVProvider, func()) // nil = memory
@@ -170,7 +173,7 @@ func New(cfg Config) *Net {
 		cfg.Logger = zap.NewNop()
 	}
 	if cfg.RPCTimeout == 0 {
-		cfg.RPCTimeout = 2 * time.Second
+		cfg.RPCTimeout = 10 * time.Second
 	}
 	return &Net{cfg: cfg, members: map[uint64]*Member{}, rng: rand.New(rand.NewSource(cfg.Seed))}
 }
@@ -219,6 +222,14 @@ func (n *Net) AddWithKV(id uint64, reuse chord.KVProvider) *Member {
 	}
 	n.mu.Unlock()
 	return m
+}
+
+// Restore makes m the member that answers for its id again (after a restart of that id
+// failed: the new process gave up and exited, nothing replaced the old state of affairs).
+func (n *Net) Restore(m *Member) {
+	n.mu.Lock()
+	n.members[m.ID] = m
+	n.mu.Unlock()
 }
 
 func (n *Net) Member(id uint64) *Member {
